@@ -146,8 +146,6 @@ structure Inv (g : Grid) : Prop where
   gpGood : ∀ ns, g.gpts = some ns → GoodL ns g.endpoint
   /-- a grid with extent and gpts has a sampling, and the three agree -/
   cons : ∀ rs ns, g.extent = some rs → g.gpts = some ns → ∃ ds, g.sampling = some ds ∧ ConsL rs ns ds g.endpoint
-  /-- with `lock_sampling` the sampling is defined (the constructor was given one) -/
-  ls : g.lockSampling = true → g.sampling.isSome = true
 
 /-- admissible assigned values (the guards of the property) -/
 def PosVal : Val → Prop
@@ -194,7 +192,6 @@ lemma inv_sampling_recomputed (g' : Grid) (rs : List Rat) (ns : List Int)
     obtain ⟨r2, n2, e2, k1, k2, k3, k4⟩ := zipWith3_getElem? _ _ _ _ i d hd'
     rw [hr'] at k1; rw [hn'] at k2; rw [he'] at k3; cases k1; cases k2; cases k3
     rw [k4]; exact (adjustSampling_cons r n e (hr r (mem_of_getElem? hr')) (hn i n e hn' he')).2
-  ls := by intro _; rw [hs]; rfl
 
 /-- shape γ: gpts `ns`, sampling `ds`, extent computed from them by `_adjust_extent` -/
 lemma inv_extent_computed (g' : Grid) (ns : List Int) (ds : List Rat)
@@ -220,15 +217,13 @@ lemma inv_extent_computed (g' : Grid) (ns : List Int) (ds : List Rat)
     obtain ⟨n2, d2, e2, k1, k2, k3, k4⟩ := zipWith3_getElem? _ _ _ _ i r hr'
     rw [hn'] at k1; rw [hd'] at k2; rw [he'] at k3; cases k1; cases k2; cases k3
     exact k4
-  ls := by intro _; rw [hs]; rfl
 
 /-- shape ε: extent or gpts undefined — nothing to agree on -/
 lemma inv_partial (g' : Grid) (hep : g'.endpoint.length = g'.dims)
     (hu : g'.extent = none ∨ g'.gpts = none)
     (h1 : ∀ rs, g'.extent = some rs → rs.length = g'.dims ∧ PosL rs)
     (h2 : ∀ ns, g'.gpts = some ns → ns.length = g'.dims ∧ GoodL ns g'.endpoint)
-    (h3 : ∀ ds, g'.sampling = some ds → ds.length = g'.dims ∧ PosL ds)
-    (h4 : g'.lockSampling = true → g'.sampling.isSome = true) : Inv g' where
+    (h3 : ∀ ds, g'.sampling = some ds → ds.length = g'.dims ∧ PosL ds) : Inv g' where
   ep := hep
   extLen := fun rs h => (h1 rs h).1
   gpLen := fun ns h => (h2 ns h).1
@@ -241,7 +236,6 @@ lemma inv_partial (g' : Grid) (hep : g'.endpoint.length = g'.dims)
     rcases hu with hu | hu
     · rw [hu] at hr; cases hr
     · rw [hu] at hn; cases hn
-  ls := h4
 
 /-- `_adjust_gpts` on positive lists gives admissible gpts -/
 lemma goodL_adjustGpts (rs ds : List Rat) (ep : List Bool) (hr : PosL rs) (hd : PosL ds) :
@@ -331,190 +325,229 @@ lemma validate_none {k : Nat} {v : Val} (h : validate k v = .ok none) : v = Val.
   | scalar x => simp [validate] at h
   | seq xs => simp only [validate] at h; split at h <;> cases h
 
-/-! ### the three setter bodies preserve the invariant and do not raise on admissible values -/
+/-! ### the three setter bodies preserve the invariant (they may raise: two locks determine the third quantity) -/
 
 lemma setExtentCore_inv (g : Grid) (rs : List Rat) (hI : Inv g) (hl : rs.length = g.dims) (hp : PosL rs) :
-    Inv (setExtentCore g (some rs)).1 ∧ (setExtentCore g (some rs)).2 = none := by
-  have alpha : ∀ ds, g.sampling = some ds → (g.lockSampling || g.gpts.isNone) = true →
-      Inv (setExtentCore g (some rs)).1 ∧ (setExtentCore g (some rs)).2 = none := by
-    intro ds hs hc
+    Inv (setExtentCore g (some rs)).1 := by
+  have shapeGS : ∀ ds, g.sampling = some ds →
+      Inv ({ g with gpts := some (zipWith3 adjustGptsElt rs ds g.endpoint), sampling := some (zipWith3 adjustSamplingElt rs (zipWith3 adjustGptsElt rs ds g.endpoint) g.endpoint), extent := some rs } : Grid) := by
+    intro ds hs
     have hdl := hI.saLen ds hs
-    have hdp := hI.saPos ds hs
     have hGl := zipWith3_length adjustGptsElt g.dims rs ds g.endpoint hl hdl hI.ep
-    have hSl := zipWith3_length adjustSamplingElt g.dims rs (zipWith3 adjustGptsElt rs ds g.endpoint) g.endpoint hl hGl hI.ep
-    have key : setExtentCore g (some rs)
-        = ({ g with gpts := some (zipWith3 adjustGptsElt rs ds g.endpoint),
-                    sampling := some (zipWith3 adjustSamplingElt rs (zipWith3 adjustGptsElt rs ds g.endpoint) g.endpoint),
-                    extent := some rs }, none) := by
-      simp [setExtentCore, hc, hs, adjustGpts, adjustSampling, no_zero_of_pos rs ds g.endpoint hdp, hSl, Res.bind]
-    rw [key]
-    exact ⟨inv_sampling_recomputed _ rs (zipWith3 adjustGptsElt rs ds g.endpoint) hI.ep hl hGl hp
-      (goodL_adjustGpts rs ds g.endpoint hp hdp) rfl rfl rfl, rfl⟩
+    exact inv_sampling_recomputed _ rs (zipWith3 adjustGptsElt rs ds g.endpoint) hI.ep hl hGl hp
+      (goodL_adjustGpts rs ds g.endpoint hp (hI.saPos ds hs)) rfl rfl rfl
+  have shapeS : ∀ ns, g.gpts = some ns →
+      Inv ({ g with sampling := some (zipWith3 adjustSamplingElt rs ns g.endpoint), extent := some rs } : Grid) := by
+    intro ns hg
+    exact inv_sampling_recomputed _ rs ns hI.ep hl (hI.gpLen ns hg) hp (hI.gpGood ns hg) rfl hg rfl
   rcases hg : g.gpts with _ | ns
   · rcases hs : g.sampling with _ | ds
     · have key : setExtentCore g (some rs) = ({ g with extent := some rs }, none) := by
         simp [setExtentCore, hs, hg, adjustGpts, adjustSampling, Res.bind]
       rw [key]
-      refine ⟨inv_partial _ hI.ep (Or.inr hg) ?_ ?_ ?_ ?_, rfl⟩
+      refine inv_partial _ hI.ep (Or.inr hg) ?_ ?_ ?_
       · intro rs' h; cases h; exact ⟨hl, hp⟩
       · intro ns h; simp [hg] at h
       · intro ds h; simp [hs] at h
-      · intro h; have := hI.ls h; simp [hs] at this
-    · exact alpha ds hs (by simp [hg])
-  · rcases hls : g.lockSampling with _ | _
-    · have hnl := hI.gpLen ns hg
-      have e2 := adjustSampling_eq g rs ns hI.ep hl hnl
-      have key : setExtentCore g (some rs)
+    · have hdl := hI.saLen ds hs
+      have hGl := zipWith3_length adjustGptsElt g.dims rs ds g.endpoint hl hdl hI.ep
+      have hSl := zipWith3_length adjustSamplingElt g.dims rs (zipWith3 adjustGptsElt rs ds g.endpoint) g.endpoint hl hGl hI.ep
+      have key : setExtentCore g (some rs) = ({ g with gpts := some (zipWith3 adjustGptsElt rs ds g.endpoint), sampling := some (zipWith3 adjustSamplingElt rs (zipWith3 adjustGptsElt rs ds g.endpoint) g.endpoint), extent := some rs }, none) := by
+        simp [setExtentCore, hs, hg, adjustGpts, adjustSampling, no_zero_of_pos rs ds g.endpoint (hI.saPos ds hs), hSl, Res.bind]
+      rw [key]; exact shapeGS ds hs
+  · have hnl := hI.gpLen ns hg
+    have hSl := zipWith3_length adjustSamplingElt g.dims rs ns g.endpoint hl hnl hI.ep
+    rcases hls : g.lockSampling with _ | _
+    · have key : setExtentCore g (some rs)
           = ({ g with sampling := some (zipWith3 adjustSamplingElt rs ns g.endpoint), extent := some rs }, none) := by
-        simp [setExtentCore, hg, hls, e2, Res.bind]
-      rw [key]
-      exact ⟨inv_sampling_recomputed _ rs ns hI.ep hl hnl hp (hI.gpGood ns hg) rfl hg rfl, rfl⟩
-    · have hsome := hI.ls hls
-      rcases hs : g.sampling with _ | ds
-      · simp [hs] at hsome
-      · exact alpha ds hs (by simp [hls])
+        simp [setExtentCore, hg, hls, adjustSampling, hSl, Res.bind]
+      rw [key]; exact shapeS ns hg
+    · rcases hs : g.sampling with _ | ds
+      · have key : setExtentCore g (some rs)
+            = ({ g with sampling := some (zipWith3 adjustSamplingElt rs ns g.endpoint), extent := some rs }, none) := by
+          simp [setExtentCore, hg, hls, hs, adjustGpts, adjustSampling, hSl, Res.bind]
+        rw [key]; exact shapeS ns hg
+      · rcases hlg : g.lockGpts with _ | _
+        · have hdl := hI.saLen ds hs
+          have hGl := zipWith3_length adjustGptsElt g.dims rs ds g.endpoint hl hdl hI.ep
+          have hSl' := zipWith3_length adjustSamplingElt g.dims rs (zipWith3 adjustGptsElt rs ds g.endpoint) g.endpoint hl hGl hI.ep
+          have key : setExtentCore g (some rs) = ({ g with gpts := some (zipWith3 adjustGptsElt rs ds g.endpoint), sampling := some (zipWith3 adjustSamplingElt rs (zipWith3 adjustGptsElt rs ds g.endpoint) g.endpoint), extent := some rs }, none) := by
+            simp [setExtentCore, hs, hg, hls, hlg, adjustGpts, adjustSampling, no_zero_of_pos rs ds g.endpoint (hI.saPos ds hs), hSl', Res.bind]
+          rw [key]; exact shapeGS ds hs
+        · have key : setExtentCore g (some rs) = (g, some "runtime_error") := by
+            simp [setExtentCore, hg, hls, hs, hlg, Res.bind]
+          rw [key]; exact hI
 
 lemma setGptsCore_inv (g : Grid) (ns : List Int) (hI : Inv g) (hl : ns.length = g.dims) (hn : GoodL ns g.endpoint) :
-    Inv (setGptsCore g (some ns)).1 ∧ (setGptsCore g (some ns)).2 = none := by
-  have gamma : ∀ ds, g.sampling = some ds → (g.lockSampling = true ∨ g.extent = none) →
-      Inv (setGptsCore g (some ns)).1 ∧ (setGptsCore g (some ns)).2 = none := by
-    intro ds hs hc
-    have hdl := hI.saLen ds hs
-    have e1 := adjustExtent_eq g ns ds hI.ep hl hdl
-    have key : setGptsCore g (some ns)
-        = ({ g with extent := some (zipWith3 adjustExtentElt ns ds g.endpoint), gpts := some ns }, none) := by
-      rcases hc with hc | hc
-      · simp [setGptsCore, hc, hs, e1, Res.bind]
-      · rcases hls : g.lockSampling with _ | _
-        · simp [setGptsCore, hls, hc, hs, e1, Res.bind]
-        · simp [setGptsCore, hls, hs, e1, Res.bind]
-    rw [key]
-    exact ⟨inv_extent_computed _ ns ds hI.ep hl hdl (hI.saPos ds hs) hn rfl rfl hs, rfl⟩
-  rcases hls : g.lockSampling with _ | _
+    Inv (setGptsCore g (some ns)).1 := by
+  have shapeE : ∀ ds, g.sampling = some ds →
+      Inv ({ g with extent := some (zipWith3 adjustExtentElt ns ds g.endpoint), gpts := some ns } : Grid) := by
+    intro ds hs
+    exact inv_extent_computed _ ns ds hI.ep hl (hI.saLen ds hs) (hI.saPos ds hs) hn rfl rfl hs
+  have shapeS : ∀ rs, g.extent = some rs →
+      Inv ({ g with sampling := some (zipWith3 adjustSamplingElt rs ns g.endpoint), gpts := some ns } : Grid) := by
+    intro rs he
+    exact inv_sampling_recomputed _ rs ns hI.ep (hI.extLen rs he) hl (hI.extPos rs he) hn he rfl rfl
+  rcases hs : g.sampling with _ | ds
   · rcases he : g.extent with _ | rs
-    · rcases hs : g.sampling with _ | ds
-      · have key : setGptsCore g (some ns) = ({ g with gpts := some ns }, none) := by
-          simp [setGptsCore, hls, he, hs, adjustExtent, Res.bind]
-        rw [key]
-        refine ⟨inv_partial _ hI.ep (Or.inl he) ?_ ?_ ?_ ?_, rfl⟩
-        · intro rs h; simp [he] at h
-        · intro ns' h; cases h; exact ⟨hl, hn⟩
-        · intro ds h; simp [hs] at h
-        · intro h; simp [hls] at h
-      · exact gamma ds hs (Or.inr he)
-    · have hrl := hI.extLen rs he
-      have hSl := zipWith3_length adjustSamplingElt g.dims rs ns g.endpoint hrl hl hI.ep
+    · have key : setGptsCore g (some ns) = ({ g with gpts := some ns }, none) := by
+        simp [setGptsCore, he, hs, adjustExtent, Res.bind]
+      rw [key]
+      refine inv_partial _ hI.ep (Or.inl he) ?_ ?_ ?_
+      · intro rs h; simp [he] at h
+      · intro ns' h; cases h; exact ⟨hl, hn⟩
+      · intro ds h; simp [hs] at h
+    · have hSl := zipWith3_length adjustSamplingElt g.dims rs ns g.endpoint (hI.extLen rs he) hl hI.ep
       have key : setGptsCore g (some ns)
           = ({ g with sampling := some (zipWith3 adjustSamplingElt rs ns g.endpoint), gpts := some ns }, none) := by
-        simp [setGptsCore, hls, he, adjustSampling, hSl, Res.bind]
-      rw [key]
-      exact ⟨inv_sampling_recomputed _ rs ns hI.ep hrl hl (hI.extPos rs he) hn he rfl rfl, rfl⟩
-  · have hsome := hI.ls hls
-    rcases hs : g.sampling with _ | ds
-    · simp [hs] at hsome
-    · exact gamma ds hs (Or.inl hls)
+        simp [setGptsCore, he, hs, adjustSampling, hSl, Res.bind]
+      rw [key]; exact shapeS rs he
+  · have hEl := zipWith3_length adjustExtentElt g.dims ns ds g.endpoint hl (hI.saLen ds hs) hI.ep
+    rcases hls : g.lockSampling with _ | _
+    · rcases he : g.extent with _ | rs
+      · have key : setGptsCore g (some ns)
+            = ({ g with extent := some (zipWith3 adjustExtentElt ns ds g.endpoint), gpts := some ns }, none) := by
+          simp [setGptsCore, hls, he, hs, adjustExtent, hEl, Res.bind]
+        rw [key]; exact shapeE ds hs
+      · have hSl := zipWith3_length adjustSamplingElt g.dims rs ns g.endpoint (hI.extLen rs he) hl hI.ep
+        have key : setGptsCore g (some ns)
+            = ({ g with sampling := some (zipWith3 adjustSamplingElt rs ns g.endpoint), gpts := some ns }, none) := by
+          simp [setGptsCore, hls, he, hs, adjustSampling, hSl, Res.bind]
+        rw [key]; exact shapeS rs he
+    · rcases he : g.extent with _ | rs
+      · have key : setGptsCore g (some ns)
+            = ({ g with extent := some (zipWith3 adjustExtentElt ns ds g.endpoint), gpts := some ns }, none) := by
+          simp [setGptsCore, hls, he, hs, adjustExtent, hEl, Res.bind]
+        rw [key]; exact shapeE ds hs
+      · rcases hle : g.lockExtent with _ | _
+        · have key : setGptsCore g (some ns)
+              = ({ g with extent := some (zipWith3 adjustExtentElt ns ds g.endpoint), gpts := some ns }, none) := by
+            simp [setGptsCore, hls, he, hs, hle, adjustExtent, hEl, Res.bind]
+          rw [key]; exact shapeE ds hs
+        · have key : setGptsCore g (some ns) = (g, some "runtime_error") := by
+            simp [setGptsCore, hls, he, hs, hle, Res.bind]
+          rw [key]; exact hI
 
-lemma setGptsCore_none_inv (g : Grid) (hI : Inv g) :
-    Inv (setGptsCore g none).1 ∧ (setGptsCore g none).2 = none := by
-  have key : setGptsCore g none = ({ g with gpts := none }, none) := by
-    rcases he : g.extent with _ | rs <;> rcases hls : g.lockSampling with _ | _ <;>
-      simp [setGptsCore, he, hls, adjustExtent, adjustSampling, Res.bind]
-  rw [key]
-  refine ⟨inv_partial _ hI.ep (Or.inr rfl) ?_ ?_ ?_ hI.ls, rfl⟩
-  · intro rs h; exact ⟨hI.extLen rs h, hI.extPos rs h⟩
-  · intro ns h; cases h
-  · intro ds h; exact ⟨hI.saLen ds h, hI.saPos ds h⟩
+lemma setGptsCore_none_inv (g : Grid) (hI : Inv g) : Inv (setGptsCore g none).1 := by
+  have hpart : Inv ({ g with gpts := none } : Grid) := by
+    refine inv_partial _ hI.ep (Or.inr rfl) ?_ ?_ ?_
+    · intro rs h; exact ⟨hI.extLen rs h, hI.extPos rs h⟩
+    · intro ns h; cases h
+    · intro ds h; exact ⟨hI.saLen ds h, hI.saPos ds h⟩
+  rcases he : g.extent with _ | rs <;> rcases hls : g.lockSampling with _ | _ <;> rcases hs : g.sampling with _ | ds <;>
+    rcases hle : g.lockExtent with _ | _
+  all_goals first
+    | (have key : setGptsCore g none = ({ g with gpts := none }, none) := by
+          simp [setGptsCore, he, hls, hs, hle, adjustExtent, adjustSampling, Res.bind]
+       rw [key]; exact hpart)
+    | (have key : setGptsCore g none = (g, some "runtime_error") := by
+          simp [setGptsCore, he, hls, hs, hle, Res.bind]
+       rw [key]; exact hI)
 
 lemma setSamplingCore_inv (g : Grid) (ds : List Rat) (hI : Inv g) (hl : ds.length = g.dims) (hp : PosL ds) :
-    Inv (setSamplingCore g (some ds)).1 ∧ (setSamplingCore g (some ds)).2 = none := by
+    Inv (setSamplingCore g (some ds)).1 := by
   -- the gpts are kept (locked, or there is no extent to recompute them from): extent := gpts × sampling
-  have caseA : (g.lockGpts = true ∨ g.extent = none) →
-      Inv (setSamplingCore g (some ds)).1 ∧ (setSamplingCore g (some ds)).2 = none := by
-    intro hc
+  have caseA : (g.lockGpts = true ∨ g.extent = none) → (g.lockGpts = true → g.lockExtent = true → g.extent.isSome = true → g.gpts = none) →
+      Inv (setSamplingCore g (some ds)).1 := by
+    intro hc hnr
     rcases hg : g.gpts with _ | ns
     · have key : setSamplingCore g (some ds) = ({ g with sampling := some ds }, none) := by
         rcases hc with hc | hc
         · simp [setSamplingCore, hc, hg, adjustExtent, Res.bind]
         · rcases hlg : g.lockGpts with _ | _ <;> simp [setSamplingCore, hc, hlg, hg, adjustExtent, Res.bind]
       rw [key]
-      refine ⟨inv_partial _ hI.ep (Or.inr hg) ?_ ?_ ?_ ?_, rfl⟩
+      refine inv_partial _ hI.ep (Or.inr hg) ?_ ?_ ?_
       · intro rs h; exact ⟨hI.extLen rs h, hI.extPos rs h⟩
       · intro ns h; simp [hg] at h
       · intro ds' h; cases h; exact ⟨hl, hp⟩
-      · intro _; rfl
     · have hnl := hI.gpLen ns hg
       have hng := hI.gpGood ns hg
       have hEl := zipWith3_length adjustExtentElt g.dims ns ds g.endpoint hnl hl hI.ep
       have hSl := zipWith3_length adjustSamplingElt g.dims (zipWith3 adjustExtentElt ns ds g.endpoint) ns g.endpoint hEl hnl hI.ep
+      have hnoraise : (g.lockGpts && (g.lockExtent && g.extent.isSome && g.gpts.isSome)) = false := by
+        rcases hlg : g.lockGpts with _ | _
+        · simp
+        · rcases hle : g.lockExtent with _ | _
+          · simp
+          · rcases hes : g.extent.isSome with _ | _
+            · simp
+            · have := hnr hlg hle hes; rw [hg] at this; cases this
       have key : setSamplingCore g (some ds)
-          = ({ g with extent := some (zipWith3 adjustExtentElt ns ds g.endpoint),
-                      sampling := some (zipWith3 adjustSamplingElt (zipWith3 adjustExtentElt ns ds g.endpoint) ns g.endpoint) }, none) := by
-        rcases hc with hc | hc
-        · simp [setSamplingCore, hc, hg, adjustExtent, adjustSampling, hEl, hSl, Res.bind]
-        · rcases hlg : g.lockGpts with _ | _ <;>
-            simp [setSamplingCore, hc, hlg, hg, adjustExtent, adjustSampling, hEl, hSl, Res.bind]
+          = ({ g with extent := some (zipWith3 adjustExtentElt ns ds g.endpoint), sampling := some (zipWith3 adjustSamplingElt (zipWith3 adjustExtentElt ns ds g.endpoint) ns g.endpoint) }, none) := by
+        rcases hlg : g.lockGpts with _ | _
+        · rcases hc with hc | hc
+          · rw [hlg] at hc; cases hc
+          · simp [setSamplingCore, hc, hlg, hg, adjustExtent, adjustSampling, hEl, hSl, Res.bind]
+        · rw [hlg] at hnoraise
+          simp only [Bool.true_and] at hnoraise
+          have hnr2 : ¬ (g.lockExtent = true ∧ g.extent.isSome = true) := by
+            intro ⟨a, b⟩; simp [a, b, hg] at hnoraise
+          simp [setSamplingCore, hlg, hnr2, hg, adjustExtent, adjustSampling, hEl, hSl, Res.bind]
       rw [key]
-      exact ⟨inv_sampling_recomputed _ _ ns hI.ep hEl hnl (posL_adjustExtent ns ds g.endpoint hng hp) hng rfl hg rfl, rfl⟩
+      exact inv_sampling_recomputed _ _ ns hI.ep hEl hnl (posL_adjustExtent ns ds g.endpoint hng hp) hng rfl hg rfl
   rcases hlg : g.lockGpts with _ | _
   · rcases he : g.extent with _ | rs
-    · exact caseA (Or.inr he)
-    · -- the gpts are recomputed from extent and the new sampling, then the sampling from extent and gpts
-      have hrl := hI.extLen rs he
+    · exact caseA (Or.inr he) (by intro h; simp [hlg] at h)
+    · have hrl := hI.extLen rs he
       have hrp := hI.extPos rs he
       have hGl := zipWith3_length adjustGptsElt g.dims rs ds g.endpoint hrl hl hI.ep
       have hSl := zipWith3_length adjustSamplingElt g.dims rs (zipWith3 adjustGptsElt rs ds g.endpoint) g.endpoint hrl hGl hI.ep
       have key : setSamplingCore g (some ds)
-          = ({ g with gpts := some (zipWith3 adjustGptsElt rs ds g.endpoint),
-                      sampling := some (zipWith3 adjustSamplingElt rs (zipWith3 adjustGptsElt rs ds g.endpoint) g.endpoint) }, none) := by
+          = ({ g with gpts := some (zipWith3 adjustGptsElt rs ds g.endpoint), sampling := some (zipWith3 adjustSamplingElt rs (zipWith3 adjustGptsElt rs ds g.endpoint) g.endpoint) }, none) := by
         simp [setSamplingCore, hlg, he, adjustGpts, adjustSampling, no_zero_of_pos rs ds g.endpoint hp, hSl, Res.bind]
       rw [key]
-      exact ⟨inv_sampling_recomputed _ rs _ hI.ep hrl hGl hrp (goodL_adjustGpts rs ds g.endpoint hrp hp) he rfl rfl, rfl⟩
-  · exact caseA (Or.inl hlg)
+      exact inv_sampling_recomputed _ rs _ hI.ep hrl hGl hrp (goodL_adjustGpts rs ds g.endpoint hrp hp) he rfl rfl
+  · by_cases hr : (g.lockExtent && g.extent.isSome && g.gpts.isSome) = true
+    · have key : setSamplingCore g (some ds) = (g, some "runtime_error") := by
+        simp [setSamplingCore, hlg, hr, Res.bind]
+      rw [key]; exact hI
+    · refine caseA (Or.inl hlg) ?_
+      intro _ hle hes
+      rcases hg : g.gpts with _ | ns
+      · rfl
+      · exfalso; apply hr; simp [hle, hes, hg]
 
-lemma setSamplingCore_none_inv (g : Grid) (hI : Inv g) (hls : g.lockSampling = false) :
-    Inv (setSamplingCore g none).1 ∧ (setSamplingCore g none).2 = none := by
-  have r0 : (if g.lockGpts then adjustExtent g g.gpts none
-      else if g.extent.isSome then adjustGpts g g.extent none else adjustExtent g g.gpts none) = (g, none) := by
-    rcases hg : g.gpts with _ | ns <;> rcases he : g.extent with _ | rs <;> rcases hlg : g.lockGpts with _ | _ <;>
-      simp [adjustExtent, adjustGpts]
-  rcases he : g.extent with _ | rs
-  · have key : setSamplingCore g none = ({ g with sampling := none }, none) := by
-      simp only [setSamplingCore, r0, Res.bind]; simp [he]
-    rw [key]
-    refine ⟨inv_partial _ hI.ep (Or.inl he) ?_ ?_ ?_ ?_, rfl⟩
-    · intro rs h; simp [he] at h
-    · intro ns h; exact ⟨hI.gpLen ns h, hI.gpGood ns h⟩
-    · intro ds h; cases h
-    · intro h; simp [hls] at h
-  · rcases hg : g.gpts with _ | ns
+lemma setSamplingCore_none_inv (g : Grid) (hI : Inv g) : Inv (setSamplingCore g none).1 := by
+  by_cases hr : (g.lockGpts && (g.lockExtent && g.extent.isSome && g.gpts.isSome)) = true
+  · have key : setSamplingCore g none = (g, some "runtime_error") := by
+      have h1 : g.lockGpts = true := by
+        rcases h : g.lockGpts with _ | _
+        · simp [h] at hr
+        · rfl
+      have h2 : (g.lockExtent && g.extent.isSome && g.gpts.isSome) = true := by simpa [h1] using hr
+      simp [setSamplingCore, h1, h2, Res.bind]
+    rw [key]; exact hI
+  · have r0 : (if g.lockGpts then (if g.lockExtent && g.extent.isSome && g.gpts.isSome then (g, some "runtime_error") else adjustExtent g g.gpts none)
+        else if g.extent.isSome then adjustGpts g g.extent none else adjustExtent g g.gpts none) = (g, none) := by
+      rcases hg : g.gpts with _ | ns <;> rcases he : g.extent with _ | rs <;> rcases hlg : g.lockGpts with _ | _ <;>
+        rcases hle : g.lockExtent with _ | _ <;> simp_all [adjustExtent, adjustGpts]
+    rcases he : g.extent with _ | rs
     · have key : setSamplingCore g none = ({ g with sampling := none }, none) := by
-        simp only [setSamplingCore, r0, Res.bind]; simp [hg]
+        simp only [setSamplingCore, r0, Res.bind]; simp [he]
       rw [key]
-      refine ⟨inv_partial _ hI.ep (Or.inr hg) ?_ ?_ ?_ ?_, rfl⟩
-      · intro rs h; exact ⟨hI.extLen rs h, hI.extPos rs h⟩
-      · intro ns h; simp [hg] at h
+      refine inv_partial _ hI.ep (Or.inl he) ?_ ?_ ?_
+      · intro rs h; simp [he] at h
+      · intro ns h; exact ⟨hI.gpLen ns h, hI.gpGood ns h⟩
       · intro ds h; cases h
-      · intro h; simp [hls] at h
-    · have hrl := hI.extLen rs he
-      have hnl := hI.gpLen ns hg
-      have hSl := zipWith3_length adjustSamplingElt g.dims rs ns g.endpoint hrl hnl hI.ep
-      have key : setSamplingCore g none
-          = ({ g with sampling := some (zipWith3 adjustSamplingElt rs ns g.endpoint) }, none) := by
-        simp only [setSamplingCore, r0, Res.bind]; simp [he, hg, adjustSampling, hSl]
-      rw [key]
-      exact ⟨inv_sampling_recomputed _ rs ns hI.ep hrl hnl (hI.extPos rs he) (hI.gpGood ns hg) he hg rfl, rfl⟩
+    · rcases hg : g.gpts with _ | ns
+      · have key : setSamplingCore g none = ({ g with sampling := none }, none) := by
+          simp only [setSamplingCore, r0, Res.bind]; simp [hg]
+        rw [key]
+        refine inv_partial _ hI.ep (Or.inr hg) ?_ ?_ ?_
+        · intro rs h; exact ⟨hI.extLen rs h, hI.extPos rs h⟩
+        · intro ns h; simp [hg] at h
+        · intro ds h; cases h
+      · have hrl := hI.extLen rs he
+        have hnl := hI.gpLen ns hg
+        have hSl := zipWith3_length adjustSamplingElt g.dims rs ns g.endpoint hrl hnl hI.ep
+        have key : setSamplingCore g none
+            = ({ g with sampling := some (zipWith3 adjustSamplingElt rs ns g.endpoint) }, none) := by
+          simp only [setSamplingCore, r0, Res.bind]; simp [he, hg, adjustSampling, hSl]
+        rw [key]
+        exact inv_sampling_recomputed _ rs ns hI.ep hrl hnl (hI.extPos rs he) (hI.gpGood ns hg) he hg rfl
 
-
-lemma validateGpts_none {k : Nat} {v : Val} (h : validateGpts k v = .ok none) : v = Val.none := by
-  unfold validateGpts at h
-  rcases hv : validate k v with e | o
-  · simp [hv] at h
-  · rcases o with _ | l
-    · exact validate_none hv
-    · simp only [hv] at h; split at h <;> cases h
-
-lemma validateGpts_some {k : Nat} {v : Val} {ns : List Int} (h : validateGpts k v = .ok (some ns)) :
-    ∃ l, validate k v = .ok (some l) ∧ ns = l.map pyInt := by
+lemma validateGpts_some {k : Nat} {v : Val} {ext : Option (List Rat)} {ns : List Int}
+    (h : validateGpts k v ext = .ok (some ns)) : ∃ l, validate k v = .ok (some l) ∧ ns = l.map pyInt := by
   unfold validateGpts at h
   rcases hv : validate k v with e | o
   · simp [hv] at h
@@ -522,10 +555,30 @@ lemma validateGpts_some {k : Nat} {v : Val} {ns : List Int} (h : validateGpts k 
     · simp [hv] at h
     · simp only [hv] at h
       split at h
-      · simp only [Except.ok.injEq, Option.some.injEq] at h; exact ⟨l, rfl, h.symm⟩
       · cases h
+      · rcases ext with _ | rs
+        · simp only at h
+          split at h
+          · simp only [Except.ok.injEq, Option.some.injEq] at h; exact ⟨l, rfl, h.symm⟩
+          · cases h
+        · simp only at h
+          split at h
+          · cases h
+          · simp only [Except.ok.injEq, Option.some.injEq] at h; exact ⟨l, rfl, h.symm⟩
 
-lemma validateGpts_len {k : Nat} {v : Val} {ns : List Int} (h : validateGpts k v = .ok (some ns)) : ns.length = k := by
+lemma validateGpts_none {k : Nat} {v : Val} {ext : Option (List Rat)} (h : validateGpts k v ext = .ok none) : v = Val.none := by
+  unfold validateGpts at h
+  rcases hv : validate k v with e | o
+  · simp [hv] at h
+  · rcases o with _ | l
+    · exact validate_none hv
+    · simp only [hv] at h
+      split at h
+      · cases h
+      · rcases ext with _ | rs <;> simp only at h <;> split at h <;> cases h
+
+lemma validateGpts_len {k : Nat} {v : Val} {ext : Option (List Rat)} {ns : List Int}
+    (h : validateGpts k v ext = .ok (some ns)) : ns.length = k := by
   obtain ⟨l, hl, rfl⟩ := validateGpts_some h
   cases v with
   | none => simp [validate] at hl
@@ -536,8 +589,8 @@ lemma validateGpts_len {k : Nat} {v : Val} {ns : List Int} (h : validateGpts k v
     · cases hl
     · simp only [Except.ok.injEq, Option.some.injEq] at hl; subst hl; simp; omega
 
-lemma validateGpts_good {k : Nat} {v : Val} {ns : List Int} {ep : List Bool} (h : validateGpts k v = .ok (some ns))
-    (hv : GoodVal ep v) : ns.length = k ∧ GoodL ns ep := by
+lemma validateGpts_good {k : Nat} {v : Val} {ext : Option (List Rat)} {ns : List Int} {ep : List Bool}
+    (h : validateGpts k v ext = .ok (some ns)) (hv : GoodVal ep v) : ns.length = k ∧ GoodL ns ep := by
   obtain ⟨l, hl, rfl⟩ := validateGpts_some h
   obtain ⟨h1, h2⟩ := validate_good hl hv
   exact ⟨by simpa using h1, h2⟩
